@@ -167,7 +167,7 @@ MEMORY_CLASS = re.compile(r"deallocated dynamic object|dead object|pointer inval
 RELEASE_LIKE = {"OPT_LEVEL": "3", "DEBUG_ASSERTIONS": "false", "OVERFLOW_CHECKS": "false"}
 
 
-def native_replay(rep_dir, timeout=900, memcheck=False, release_like=False, fresh_target=False):
+def native_replay(rep_dir, timeout=300, memcheck=False, release_like=False, fresh_target=False):
     """Run the playback test natively (dev profile, the one Kani models). True = the test fails (reproduced).
     release_like=True: the same test with the release profile's semantic flags (opt-level 3, no debug assertions, no overflow
     checks) - informational only: the verdict is always the dev-profile one, because that is what the solver decided.
@@ -260,7 +260,10 @@ def native_replay(rep_dir, timeout=900, memcheck=False, release_like=False, fres
     if scratch:
         open(toml_path, "w").write(toml_orig)
     if not reproduced and "test result:" not in out:
-        return None, out   # the playback crate did not build / run at all: no verdict
+        if rc == -9:
+            out += ("\n[vk] the playback test did not finish within %d s (natively a contended lock acquisition blocks; "
+                    "Kani's sequential model of it does not): no verdict\n" % timeout)
+        return None, out   # the playback crate did not build / run / finish: no verdict
     try:
         hn = json.load(open(os.path.join(rep_dir, "replay.json"))).get("harness")
         if hn and ("kani_concrete_playback_" + hn) not in out:
@@ -288,7 +291,7 @@ def replay_cmd(pid, path):
         print("VIOLATION property=%s replay=%s" % (pid, path))
         return 1
     if ok is None:
-        print("INCONCLUSIVE: the replay crate did not build or run against the current tree")
+        print("INCONCLUSIVE: the replay crate did not build, run or finish against the current tree")
         return 2
     print("replay does not fail on the current tree")
     return 0
